@@ -98,8 +98,9 @@ async fn run_cfg<TC: Tcfg>(case: &Case, st: &mut Stats) -> R {
     let eh = w.publish(to_batch(&target)).await.map_err(akd_err("publish-err", "target publish"))?;
     ensure!((eh.0, eh.1) == exp_next, "publish-root", "target publish returned a pair different from the model");
     let cap = vdb.ctl.captured.lock().unwrap().clone();
-    ensure!(cap.len() == 1, "commit-batches", "publish issued {} commit batches", cap.len());
-    let batch = cap[0].clone();
+    ensure!(!cap.is_empty(), "commit-batches", "publish wrote nothing");
+    // one or several writes: in the order issued
+    let batch: Vec<DbRecord> = cap.iter().flatten().cloned().collect();
     ensure!(matches!(batch.last(), Some(DbRecord::Azks(_))) && batch.iter().filter(|r| matches!(r, DbRecord::Azks(_))).count() == 1, "commit-azks-last", "the epoch record is not the (single) last record of the commit batch");
     ensure!(snapshot(&vdb.inner).await == pre, "harness", "capture mode wrote to the database");
     let azks_rec = batch.last().unwrap().clone();
@@ -192,7 +193,7 @@ pub fn run(eng: &mut Engine) {
     eng.prop_part(
         "crash_points",
         "generated histories whose last publish creates, splits and updates nodes; its commit batch is captured instead of written; crash points = every prefix of the non-epoch records in key order and in reverse key order + generated subsets, each applied to a copy of the pre-publish database; a fresh ReadOnlyDirectory (no cache) and a fresh Directory (new cache) must report the model's previous (epoch, root) and serve lookups, histories and audits equal to the model at that epoch, labels of the unfinished epoch unknown; finally the complete batch must serve the new epoch; non-trivial = partial crash point containing a rewritten node (one with a previous version); distinct by case",
-        eng.tier.pick(400, 4000),
+        eng.tier.pick(250, 4000),
         move || strategy(thorough),
         check,
     );
